@@ -28,6 +28,9 @@ type Decoder interface {
 }
 
 func NewDecoder(contentType string) (Decoder, error) {
+	// media types are case-insensitive (RFC 9110, section 8.3.1)
+	contentType = strings.ToLower(contentType)
+
 	switch {
 	case strings.Contains(contentType, "json"):
 		return JSONDecoder{}, nil
